@@ -86,7 +86,8 @@ func (e *Engine) verifyFunction(fn *ssa.Function, fc *FuncContract) *Ctx {
 	f.hasFrame = fc != nil
 	f.run(st, "true", args, binds)
 	f.entry = entryState
-	// postconditions, frames
+	// postconditions, frames (returns numbered in source order)
+	sort.SliceStable(f.rets, func(i, j int) bool { return f.rets[i].pos < f.rets[j].pos })
 	for ri, rt := range f.rets {
 		if fc == nil {
 			continue
@@ -99,6 +100,9 @@ func (e *Engine) verifyFunction(fn *ssa.Function, fc *FuncContract) *Ctx {
 		suffix := ""
 		if len(f.rets) > 1 {
 			suffix = fmt.Sprintf("@ret%d", ri+1)
+		}
+		for _, u := range fc.UseRets {
+			post.useAxiom(u)
 		}
 		for _, en := range fc.Ensures {
 			g, err := post.evalBool(en.Expr)
